@@ -433,6 +433,8 @@ func runC04(c *config) {
 	}
 	c04Placeholders(c) // blockaddress placeholders and parent links against Proofs/PlaceholderProofs.v (c04ph.go)
 	c04Bindings(c)
+	// attribute groups defined more than once, used in every position (c04attr.go)
+	c04RepeatedAttrGroups(c)
 	_ = o
 }
 
@@ -708,6 +710,8 @@ func runC05(c *config) {
 			o.Pass("handwritten_fault")
 		}
 	}
+	// the number of an unnamed local written a second time (c05ids.go)
+	c05RepeatedIDs(c)
 }
 
 // ---- C12
